@@ -105,9 +105,21 @@ func checkHash(c hashCase) (h.Info, error) {
 	if err := cu.Absorb(src, c.Blocks*ref.Rate); err != nil {
 		return info, err
 	}
+	clone := cu.Clone() // taken after 1 or 2 permutations: continues like the original
 	dst := make([]trinary.Trits, c.N)
 	if err := cu.Squeeze(dst, 2*ref.Rate); err != nil {
 		return info, err
+	}
+	cdst := make([]trinary.Trits, c.N)
+	if err := clone.Squeeze(cdst, 2*ref.Rate); err != nil {
+		return info, err
+	}
+	for j := range dst {
+		for i := range dst[j] {
+			if cdst[j][i] != dst[j][i] {
+				return info, fmt.Errorf("[%s build] a clone taken after absorbing %d block(s) squeezes lane %d trit %d = %d, the original %d", buildVariant, c.Blocks, j, i, cdst[j][i], dst[j][i])
+			}
+		}
 	}
 	for j := range src {
 		var sp ref.Sponge
@@ -127,9 +139,9 @@ func TestSpongeLevel(t *testing.T) {
 		Prop: "C20", Name: "sponge-level-" + buildVariant, N: 150,
 		Gen: func(t *rapid.T) hashCase {
 			return hashCase{Seed: rapid.Uint64().Draw(t, "seed"), Mode: rapid.IntRange(0, 5).Draw(t, "mode"),
-				N: h.OneOf(t, "n", 1, 2, 7, curl.MaxBatchSize-1, curl.MaxBatchSize, curl.MaxBatchSize), Blocks: rapid.IntRange(1, 2).Draw(t, "blocks")}
+				N: h.OneOf(t, "n", 1, 2, 7, curl.MaxBatchSize-1, curl.MaxBatchSize, curl.MaxBatchSize), Blocks: rapid.IntRange(1, 3).Draw(t, "blocks")}
 		},
 		Check: checkHash, Require: []string{"sponge/mode2", "sponge/mode4"},
-		Rule: "public-API part (no hook): 1..W lanes (W = bits per machine word of the build target) absorbed and two blocks squeezed through the build-selected permutation = scalar Curl-P-81 per lane; run on the default build, the purego build and the GOARCH=386 build (32-bit words), so hashes are independent of build target and tag; non-trivial = >= 2 distinct lanes; distinct by case",
+		Rule: "public-API part (no hook): 1..W lanes (W = bits per machine word of the build target) absorbed (1..3 blocks) and two blocks squeezed through the build-selected permutation, from the instance and from a clone taken before squeezing, = scalar Curl-P-81 per lane; run on the default build, the purego build and the GOARCH=386 build (32-bit words), so hashes are independent of build target and tag; non-trivial = >= 2 distinct lanes; distinct by case",
 	})
 }
